@@ -162,7 +162,7 @@ def shorten_frames(dump, table):
     """replace every frame token (long hex) by a short opaque token; `table` maps frame -> token"""
     out = []
     for t in dump.split(" "):
-        if len(t) > 24 and t[0] == "x":
+        if len(t) > 24 and t.startswith("x7b22"):   # a frame is a JSON object
             if t not in table:
                 table[t] = "x%06x" % len(table)
             out.append(table[t])
@@ -432,15 +432,76 @@ def compare(li, lm, atol, rel=REL):
     return True, ok, worst
 
 
-def perturb_dump(dump, k):
-    """every Regular number of the dump multiplied by k (model input only)"""
-    out = []
-    for t in dump.split(" "):
-        if t.startswith("R(") and t.endswith(")"):
-            out.append("R(%s)" % qtok(num(t[2:-1]) * k))
-        else:
-            out.append(t)
-    return " ".join(out)
+def segments(line):
+    """a scaled dump cut into components: [("head", tokens)] + [("I", k, tokens)...] + C, T, Q likewise;
+    None when it is not a scaled dump (nonfinite, panic)"""
+    if not line.startswith("D "):
+        return None
+    tk = Toks(line)
+    tk.next()
+    d = tk.next()
+    if d == "scaled":
+        for _ in range(4):
+            tk.next()
+    tk.next()
+    segs = [("head", 0, " ".join(tk.t[:tk.i]))]
+    for letter, parse in (("I", p_quantity), ("C", p_optvalue), ("T", p_quantity)):
+        a = tk.i
+        n = p_count(tk, letter)
+        segs.append((letter + "#", 0, tk.t[a]))
+        for k in range(n):
+            a = tk.i
+            tk.next()
+            parse(tk)
+            segs.append((letter, k, " ".join(tk.t[a:tk.i])))
+    a = tk.i
+    n = p_count(tk, "Q")
+    segs.append(("Q#", 0, tk.t[a]))
+    for k in range(n):
+        a = tk.i
+        p_value(tk)
+        tk.next()
+        segs.append(("Q", k, " ".join(tk.t[a:tk.i])))
+    if not tk.done():
+        raise ValueError("trailing tokens")
+    return segs
+
+
+def number_candidates(tok):
+    """a written number moved by at most 2^-40 relative: itself, (1 +- 2^-40), the nearest simple rational;
+    a fraction is moved through its recorded error"""
+    if not tok.startswith("R("):
+        w, n, d, e = tok[2:-1].split(",")
+        v = number_value(tok)
+        return [tok] + ["F(%s,%s,%s,%s)" % (w, n, d, qtok(num(e) + sg * REL * v)) for sg in (1, -1)]
+    v = num(tok[2:-1])
+    c = [v, v * (1 + REL), v * (1 - REL)]
+    sv = v.limit_denominator(10 ** 6)
+    if sv != v and abs(sv - v) <= REL * abs(v):
+        c.append(sv)
+    return ["R(%s)" % qtok(x) for x in c]
+
+
+def factor_candidates(f):
+    c = [f, f * (1 + REL), f * (1 - REL)]
+    sf = f.limit_denominator(10 ** 6)
+    if sf != f and abs(sf - f) <= REL * abs(f):
+        c.append(sf)
+    return c
+
+
+def tie_lines(f, sq):
+    """model cases: the single quantity sq = (L|F, value, unit) as the only ingredient of a recipe,
+    scaled by every candidate factor with every candidate spelling of its numbers"""
+    kind, v, u = sq
+    if v[0] == "n":
+        vals = ["n " + a for a in number_candidates(v[1])]
+    elif v[0] == "r":
+        vals = ["r %s %s" % (a, b) for a in number_candidates(v[1]) for b in number_candidates(v[2])]
+    else:
+        vals = ["t " + v[1]]
+    fs = factor_candidates(f) if kind == "L" else [f]
+    return ["f%s R - x7b7d I1 x7b7d %s %s %s C0 T0 Q0" % (qtok(ff), kind, vv, u) for ff in fs for vv in vals]
 
 
 # ---------------------------------------------------------------- generator
@@ -599,7 +660,7 @@ class RGen:
 
 def gen_cases(rng, tier, units):
     """-> list of (case line, expectation)"""
-    n = 2500 if tier == "quick" else 60000
+    n = 3000 if tier == "quick" else 60000
     g = RGen(rng, units)
     out = []
     for i in range(n):
@@ -743,12 +804,13 @@ def run(rep, tier, seed):
     model = common.run_lines(runner, [m for _, _, m in model_cases], tag="model")
 
     worst = Fraction(0)
-    pending = []
+    pending = []     # (idx, op, factor, label, k, impl segment, model segment, atol)
     hit_ops = set((h[2]["case"], h[2].get("op")) for h in monitor_hits)
     for (idx, table, mline), lm in zip(model_cases, model):
         case = cases[idx][0]
         src, src_dump, results = evaluated[idx]
         atol = TEMP_ABS if any(t in temp_keys for t in src_dump.split(" ")) else 0
+        base = (src["servings"][0] if src["servings"] else 1)
         mparts = lm.split(" ;; ")
         if len(mparts) != len(results):
             disagreements.append((case[:300], {"case": case, "model": lm[:2000], "kind": "result count"}))
@@ -758,47 +820,63 @@ def run(rep, tier, seed):
             same, ok, dev = compare(rs, ml, atol)
             if same and ok:
                 worst = max(worst, dev)
-            elif same:
-                disagreements.append((case[:300], {"case": case, "op": op, "impl": rs[:3000], "model": ml[:3000],
-                                                   "kind": "value beyond tolerance"}))
-            else:
-                pending.append((idx, table, op, rs, ml, atol))
+                continue
+            if not same:
+                # component by component: which quantities differ discretely
+                try:
+                    si, sm = segments(rs), segments(ml)
+                except (ValueError, IndexError):
+                    si = sm = None
+                if si is not None and sm is not None and len(si) == len(sm) and op[0] in "fs" and (op[0] == "f" or base != 0):
+                    f = num(op[1:]) if op[0] == "f" else Fraction(int(op[1:]), base)
+                    rest_ok = True
+                    local = []
+                    for (la, ka, ta), (lb, kb, tb) in zip(si, sm):
+                        sm_, ok_, dev_ = compare(ta, tb, atol)
+                        if sm_ and ok_:
+                            worst = max(worst, dev_)
+                        elif (not sm_) and la == lb and la in ("I", "T"):
+                            local.append((idx, op, f, la, ka, ta, tb, atol))
+                        else:
+                            rest_ok = False
+                    if rest_ok and local:
+                        pending.extend(local)
+                        continue
+            disagreements.append((case[:300], {"case": case, "op": op, "impl": rs[:3000], "model": ml[:3000],
+                                               "kind": "value beyond tolerance" if same else "discrete"}))
 
-    # rounding ties: the model at factor (1 +- 2^-40) or at values (1 +- 2^-40) gives the implementation's answer
+    # rounding ties: a discrete disagreement on one quantity is accepted (and counted) only if the model,
+    # evaluated on that quantity alone with the factor and the written numbers each moved by at most 2^-40
+    # relative ((1 +- 2^-40) or the nearest simple rational), gives the implementation's answer, and the
+    # monitor accepted the implementation's answer for that operation
     ties = []
     if pending:
         pl = []
-        for idx, table, op, rs, ml, atol in pending:
-            src_dump = shorten_frames(evaluated[idx][1], table)
+        spans = []
+        for idx, op, f, la, k, ti, tm_, atol in pending:
             src = evaluated[idx][0]
-            base = (src["servings"][0] if src["servings"] else 1)
-            if op[0] == "f":
-                f = num(op[1:])
-            elif op[0] == "s" and base != 0:
-                f = Fraction(int(op[1:]), base)
-            else:
-                f = None
-            for sgn in (1, -1):
-                k = 1 + sgn * REL
-                if f is None:
-                    pl.append(op + " " + src_dump)
-                    pl.append(op + " " + src_dump)
-                else:
-                    pl.append("f" + qtok(f * k) + " " + src_dump)
-                    pl.append("f" + qtok(f) + " " + perturb_dump(src_dump, k))
-        pm = common.run_lines(runner, pl, tag="model-tie")
-        for j, (idx, table, op, rs, ml, atol) in enumerate(pending):
+            sq = (src["ingredients"] if la == "I" else src["timers"])[k][1]
+            lines = tie_lines(f, sq) if sq is not None else []
+            spans.append((len(pl), len(pl) + len(lines)))
+            pl.extend(lines)
+        pm = common.run_lines(runner, pl, tag="model-tie") if pl else []
+        for (idx, op, f, la, k, ti, tm_, atol), (a, b) in zip(pending, spans):
             case = cases[idx][0]
+            want = " ".join(ti.split(" ")[1:])      # the quantity without its frame / timer name
             ok = False
-            for lm2 in pm[4 * j: 4 * j + 4]:
-                same, close_, _ = compare(rs, lm2, atol + (TEMP_ABS if atol else 0), rel=REL * 8)
+            for lm2 in pm[a:b]:
+                sg = segments(lm2)
+                got = " ".join(sg[2][2].split(" ")[1:]) if sg and len(sg) > 2 else ""
+                same, close_, _ = compare(want, got, 2 * atol, rel=REL * 8)
                 if same and close_:
                     ok = True
-            if ok and op[0] != "d" and (case, op) not in hit_ops:
-                ties.append({"case": case[:600], "op": op, "impl": rs[:600], "model": ml[:600]})
+                    break
+            if ok and (case, op) not in hit_ops:
+                ties.append({"source": unhx(case.split(" ")[4])[:300], "op": op, "component": "%s%d" % (la, k),
+                             "impl": ti[-200:], "model": tm_[-200:]})
             else:
-                disagreements.append((case[:300], {"case": case, "op": op, "impl": rs[:3000], "model": ml[:3000],
-                                                   "kind": "discrete"}))
+                disagreements.append((case[:300], {"case": case, "op": op, "component": "%s%d" % (la, k),
+                                                   "impl": ti[:600], "model": tm_[:600], "kind": "discrete"}))
 
     # how often the fit moved a scaled quantity to another unit (distinct non-trivial behaviour)
     for idx, (src, src_dump, results) in evaluated.items():
@@ -833,21 +911,27 @@ def run(rep, tier, seed):
                             "scalable": shorten_frames(src_dump, table), "impl": shorten_frames(rl, table)})
         if len(samples) >= 3:
             break
+    nontrivial = set()
+    for idx, (src, src_dump, results) in evaluated.items():
+        if any(sq is not None and sq[0] == "L" and sq[1][0] != "t" for _, sq in src["ingredients"] + src["timers"]):
+            nontrivial.add(src_dump)
     rep.coverage.update({
-        "evaluations": stats["ops"], "recipes": stats["recipes"], "generated": len(gen), "corpus": len(corpus),
+        "evaluations": stats["ops"], "distinct_nontrivial": len(nontrivial), "recipes": stats["recipes"], "generated": len(gen), "corpus": len(corpus),
         "invalid_recipes_skipped": stats["invalid"], "not_parsed_recipes (Linear/Fixed relabelled)": stats["not_parsed_recipes"],
         "component_outcomes": stats["outcomes"], "quantity_value_kinds": stats["value_kinds"],
         "quantities_with_known_unit": stats["units_known"], "quantities_with_unknown_unit": stats["units_unknown"],
         "quantities_without_unit": stats["units_none"], "inline_quantities": stats["inline_quantities"],
         "recipes_with_servings": stats["with_servings"], "nonfinite_factor_results": stats["nonfinite"],
-        "ingredient_quantities_refitted_to_another_unit": stats["refitted_to_other_unit"],
+        "ingredient_results_with_another_unit_text (refit or symbol normalisation)": stats["refitted_to_other_unit"],
         "fraction_numbers_in_results": stats["fractions_in_results"],
         "rule": "seeded recipes (70%% all extensions, 30%% none) with ingredients (no quantity / number / decimal / fraction / "
                 "mixed / range / text; every key of every bundled unit, unknown units, no unit; `=` locks; references; "
                 "modifiers; notes), cookware, timers, inline quantities, servings as number / `a|b` / list / words under "
                 "servings|serves|yield in front matter or `>>` lines; 12%% relabelled Linear<->Fixed after parsing, 10%% "
                 "set_servings (empty, zero, lists); each scaled by %s, one random factor, two servings counts of %s "
-                "(+ the equivalent factor) and default_scale; corpus first" % (FIXED_FACTORS, SERVINGS),
+                "(+ the equivalent factor) and default_scale; corpus first.  evaluations = (recipe, operation) pairs; "
+                "distinct_nontrivial = distinct dumped recipes holding at least one Linear numeric / range quantity"
+                % (FIXED_FACTORS, SERVINGS),
         "exhaustive": False,
         "tolerance": "relative 2^-40 (recipes with a temperature unit: + absolute 1e-9)",
         "worst_relative_deviation_model_vs_impl": float(worst),
